@@ -21,7 +21,7 @@ EXHAUSTIVE = {}
 MODE = "ROUND_HALF_EVEN"
 KINDS = ["int", "bool", "zero", "Fraction", "Decimal", "stdDecimal", "float",
          "complex", "str", "None"]
-BINOPS = ["add", "sub", "lt", "le", "gt", "ge", "eq", "ne"]
+BINOPS = ["add", "sub", "lt", "le", "gt", "ge", "eq", "ne", "iadd", "isub"]
 MIXOPS = ["add", "radd", "sub", "rsub", "lt", "le", "gt", "ge", "eq", "ne"]
 
 
@@ -68,7 +68,7 @@ def gen_cases(rng, tier):
                 v = rng.choice([x for x in lin + qlin if ctx.units[x]["cls"] == ctx.units[u]["cls"]])
                 a = rng.choice(["0", _qty.tok(rng, _qty.amount(rng))])
                 b = rng.choice(["0", _qty.tok(rng, _qty.amount(rng))])
-                op = rng.choice(["add", "sub", "add", "sub", "neg", "abs"])
+                op = rng.choice(["add", "sub", "add", "sub", "neg", "abs", "iadd", "isub"])
                 if op in ("neg", "abs"):
                     ops.append(["q_num", op, f"{a}@{u}", "1", MODE])
                 else:
@@ -92,6 +92,28 @@ def gen_cases(rng, tier):
                     if other:
                         toks[rng.randrange(1, n)] = f"{_qty.tok(rng, _qty.amount(rng))}@{rng.choice(other)}"
                 ops.append(["q_sum", ",".join(toks) if toks else "-", MODE])
+        # targeted (a): a unit of a type WITHOUT reference unit (no scale)
+        # against a unit of another type, every operator in both orders
+        refless = [u for u in allu if ctx.units[u]["scale"] is None][:2]
+        for r_ in refless:
+            others = [x for x in allu if ctx.units[x]["cls"] != ctx.units[r_]["cls"]]
+            if not others:
+                continue
+            v = rng.choice(others)
+            for o in BINOPS:
+                ops.append(["q_bin", o, f"3@{r_}", f"4@{v}", MODE])
+                ops.append(["q_bin", o, f"4@{v}", f"3@{r_}", MODE])
+        # targeted (b): a base type and the type declared as its SUBCLASS: two
+        # types (the subclass quantity is not a quantity of the parent type)
+        for c, v_ in ctx.classes.items():
+            par = v_.get("parent")
+            if par is None or ctx.classes[par]["ref"] is None or v_["ref"] is None:
+                continue
+            pu = rng.choice(ctx.linear_units(par))
+            cu = rng.choice(ctx.linear_units(c))
+            for o in BINOPS:
+                ops.append(["q_bin", o, f"3/2@{pu}", f"4@{cu}", MODE])
+                ops.append(["q_bin", o, f"4@{cu}", f"3/2@{pu}", MODE])
         cases.append(_qty.case_of(ctx, ops, ["mix"]))
     return cases
 
@@ -118,11 +140,11 @@ def oracle(case, impl):
                 exp = {"eq": "ok false", "ne": "ok true"}.get(o[1], "err IncompatibleUnitsError")
                 if out != exp:
                     fails.append({"site": "mix:types", "msg": f"{o} -> {out}, expected {exp}"})
-            elif o[1] in ("add", "sub"):
+            elif o[1] in ("add", "sub", "iadd", "isub"):
                 # operands as constructed (on their grid if the type has a quantum)
                 x, y = ctx.grid(u, _qty.tok_value(a), o[4]), ctx.grid(v, _qty.tok_value(b), o[4])
                 su, sv = ctx.units[u]["scale"], ctx.units[v]["scale"]
-                sign = 1 if o[1] == "add" else -1
+                sign = 1 if o[1] in ("add", "iadd") else -1
                 # left operand's unit; reference value = sum of reference
                 # values (rounded once to the left unit's grid, if any)
                 exp = "ok " + ctx.qty(ctx.grid(u, (x * su + sign * y * sv) / su, o[4]), u)
